@@ -171,19 +171,21 @@ func (fx *FnCtx) externalErrorsK(callee *ssa.Function, key string, rt types.Type
 			}
 		}
 	}
+	hi := fx.eng.SentModEnd
+	if unexportedOnly {
+		hi = fx.eng.SentUnexpEnd
+	}
+	if hi <= 4096 {
+		return
+	}
 	for _, e := range errs {
-		for name, id := range fx.eng.Sentinels {
-			if strings.HasPrefix(name, modulePath) {
-				base := name[strings.LastIndex(name, ".")+1:]
-				if unexportedOnly && (base[0] >= 'A' && base[0] <= 'Z') {
-					continue
-				}
-				fx.sol.Assert(tNot(tEq(e, fmt.Sprint(id))))
-				// ... nor does it wrap one: errors.Is(externalError, moduleSentinel) is false (part of A13)
-				fx.errAxioms()
-				fx.sol.Assert("(not (errIs " + e + " " + fmt.Sprint(id) + "))")
-			}
+		if hasBoundVar(e) {
+			continue
 		}
+		// not one of the module's sentinels, nor wrapping one (errors.Is(externalError, moduleSentinel) is false): A13
+		fx.sol.Assert(tOr(tCmp("<", e, "4096"), tCmp(">=", e, fmt.Sprint(hi))))
+		fx.errAxioms()
+		fx.sol.Assert("(forall ((t Int)) (! (=> (and (>= t 4096) (< t " + fmt.Sprint(hi) + ")) (not (errIs " + e + " t))) :pattern ((errIs " + e + " t))))")
 	}
 }
 
